@@ -923,8 +923,9 @@ def judge_doe(case, run, out, calls, keys_before, new_keys, term_names, db_on, m
         garbage = [lb + s * (ub - lb) for s in samples]
         fmask = ~mask
         if pts:
-            twice = all(any(close(p[fmask], g[fmask]) for g in garbage) for p in pts) and \
-                not all(any(close(p[fmask], s[fmask]) for s in samples) for p in pts)
+            # some evaluated point is lb + s*(ub-lb) for a sample s without being a sample itself
+            twice = any(any(close(p[fmask], g[fmask]) for g in garbage)
+                        and not any(close(p[fmask], s[fmask]) for s in samples) for p in pts)
         else:  # nothing evaluated: a previous execution already recorded the same wrong points
             twice = bool(all_keys) and all(any(close(k[fmask], g[fmask]) for k in all_keys) for g in garbage) and \
                 not all(any(close(k[fmask], s[fmask]) for k in all_keys) for s in samples)
